@@ -3,6 +3,7 @@
 package c14
 
 import (
+	"bytes"
 	"crypto/tls"
 	"encoding/json"
 	"fmt"
@@ -11,6 +12,7 @@ import (
 	"time"
 
 	"github.com/pion/dtls/v2"
+	"k8s.io/klog/v2"
 
 	"github.com/vmware/go-ipfix/pkg/entities"
 	"github.com/vmware/go-ipfix/pkg/exporter"
@@ -62,6 +64,10 @@ func runExtra(c Extra) *ev.Failure {
 		return runDTLSTicker(c)
 	case "refresh_unbuildable":
 		return runRefreshUnbuildable(c)
+	case "default_refresh_interval":
+		return runDefaultRefresh(0)
+	case "close_overlap":
+		return runCloseOverlap(0)
 	}
 	return nil
 }
@@ -311,11 +317,139 @@ func runRefreshUnbuildable(c Extra) *ev.Failure {
 	return nil
 }
 
+// closeGate holds the first log line that contains "Closing connection to the collector" until
+// released (the library's log output is a writer owned by the harness).
+type closeGate struct {
+	mu      sync.Mutex
+	armed   bool
+	hit     chan struct{}
+	release chan struct{}
+}
+
+func (g *closeGate) Write(p []byte) (int, error) {
+	g.mu.Lock()
+	if g.armed && bytes.Contains(p, []byte("Closing connection to the collector")) {
+		g.armed = false
+		hit, release := g.hit, g.release
+		g.mu.Unlock()
+		close(hit)
+		<-release
+		return len(p), nil
+	}
+	g.mu.Unlock()
+	return len(p), nil
+}
+
+// runCloseOverlap: "no byte is written after Close" holds for every Close call that returned, also
+// when two calls overlap: the first Close is held at its first log line (before it stopped
+// anything) for 2.4 s while the 1 s refresh ticker keeps running; a second Close is called
+// meanwhile. Whatever it does, once it has returned no datagram may follow. Runs alone (it takes
+// over the process-wide log output).
+func runCloseOverlap(_ int) *ev.Failure {
+	peer, err := exph.NewPeer("udp", false)
+	if err != nil {
+		return nil
+	}
+	defer peer.Close()
+	ep, err := exporter.InitExportingProcess(exporter.ExporterInput{CollectorAddress: peer.Addr, CollectorProtocol: "udp", ObservationDomainID: 51, TempRefTimeout: 1})
+	if err != nil {
+		return ev.Failf("InitExportingProcess: %v", err)
+	}
+	for t := 0; t < 2; t++ {
+		ts, _ := exph.TemplateSet(uint16(256+t), templates[t], t)
+		if _, err := ep.SendSet(ts); err != nil {
+			return ev.Failf("template: %v", err)
+		}
+	}
+	g := &closeGate{armed: true, hit: make(chan struct{}), release: make(chan struct{})}
+	klog.SetOutput(g)
+	defer glue.SilenceKlog()
+	firstDone, secondDone := make(chan struct{}), make(chan time.Time, 1)
+	go func() { ep.CloseConnToCollector(); close(firstDone) }()
+	select {
+	case <-g.hit:
+	case <-firstDone: // this version does not log before closing: nothing to hold, nothing to check
+		return nil
+	case <-time.After(5 * time.Second):
+		close(g.release)
+		return nil
+	}
+	time.Sleep(100 * time.Millisecond)
+	go func() { ep.CloseConnToCollector(); secondDone <- time.Now() }()
+	time.Sleep(2300 * time.Millisecond)
+	var second time.Time
+	select {
+	case second = <-secondDone:
+	default:
+	}
+	n1, _ := peer.WaitDatagrams(0, 0)
+	close(g.release)
+	select {
+	case <-firstDone:
+	case <-time.After(10 * time.Second):
+		return ev.Failf("the first CloseConnToCollector did not return within 10 s of being released")
+	}
+	if second.IsZero() {
+		select {
+		case second = <-secondDone:
+		case <-time.After(10 * time.Second):
+			return ev.Failf("a second, overlapping CloseConnToCollector did not return within 10 s of the first one finishing")
+		}
+		// both calls have returned by now: one more refresh interval must stay silent
+		time.Sleep(50 * time.Millisecond)
+		n3, _ := peer.WaitDatagrams(0, 0)
+		time.Sleep(1200 * time.Millisecond)
+		n4, _ := peer.WaitDatagrams(0, 0)
+		if len(n4) > len(n3) {
+			return ev.Failf("%d datagrams were written after both overlapping CloseConnToCollector calls had returned", len(n4)-len(n3))
+		}
+		return nil
+	}
+	// the second call returned while the first was still held: from then on nothing may be written
+	if len(n1) > 2 {
+		return ev.Failf("a second CloseConnToCollector returned while the first call was still in progress (held at its first log line, before it stopped anything); in the 2.3 s after that, the refresh ticker wrote %d more datagrams: bytes are written after a Close call returned", len(n1)-2)
+	}
+	return nil
+}
+
+// runDefaultRefresh (thorough tier: it takes ten minutes of wall time): TempRefTimeout left at 0
+// means the documented default of 600 s; a template must be retransmitted 600 s (+/- 15 s) after
+// the exporter was created.
+func runDefaultRefresh(_ int) *ev.Failure {
+	peer, err := exph.NewPeer("udp", false)
+	if err != nil {
+		return nil
+	}
+	defer peer.Close()
+	t0 := time.Now()
+	ep, err := exporter.InitExportingProcess(exporter.ExporterInput{CollectorAddress: peer.Addr, CollectorProtocol: "udp", ObservationDomainID: 61})
+	if err != nil {
+		return ev.Failf("InitExportingProcess: %v", err)
+	}
+	defer ep.CloseConnToCollector()
+	ts, _ := exph.TemplateSet(256, templates[0], 0)
+	if _, err := ep.SendSet(ts); err != nil {
+		return ev.Failf("template: %v", err)
+	}
+	time.Sleep(time.Until(t0.Add(585 * time.Second)))
+	early, _ := peer.WaitDatagrams(0, 0)
+	if len(early) > 1 {
+		return ev.Failf("default refresh interval: %d retransmissions within the first 585 s (the documented default is 600 s)", len(early)-1)
+	}
+	if d, ok := peer.WaitDatagrams(2, 30*time.Second); !ok {
+		return ev.Failf("default refresh interval (TempRefTimeout left at 0, documented default 600 s): no retransmission of the template within %v of the exporter's creation (%d datagrams in all)", time.Since(t0).Round(time.Second), len(d))
+	}
+	return nil
+}
+
 func extraCases(thorough bool) []Extra {
 	out := []Extra{{Kind: "json_refresh"}, {Kind: "json_refresh", N: 1}, {Kind: "json_refresh", Ticker: true}, {Kind: "dtls_ticker"}, {Kind: "refresh_unbuildable"}, {Kind: "refresh_unbuildable", N: 1}}
 	n := 4
 	if thorough {
 		n = 20
+		if ev.Shard() <= 1 {
+			out = append(out, Extra{Kind: "default_refresh_interval"})
+		}
 	}
 	for k := 0; k < n; k++ {
 		out = append(out, Extra{Kind: "tls_idleclose", N: k})
